@@ -131,8 +131,9 @@ class Ctx:
                     "normal_form": {
                         "helpers_expanded": sorted({"%s <- %s" % (k.rsplit("::", 2)[-2] + "::" + k.rsplit("::", 1)[-1] if k.count("::") > 1 else k, h.rsplit("::", 1)[-1])
                                                     for k, v in getattr(prog, "inlined", {}).items() for h, _ in v})[:40],
-                        "combinators_rewritten": sum(len(v) for v in getattr(prog, "expanded", {}).values()),
-                        "functions_with_rewrites": len(getattr(prog, "expanded", {})),
+                        "combinators_rewritten": sum(len(v) for k_, v in getattr(prog, "expanded", {}).items() if k_ != "!errors"),
+                        "functions_with_rewrites": len([k_ for k_ in getattr(prog, "expanded", {}) if k_ != "!errors"]),
+                        "rewrite_errors": [list(x) for x in getattr(prog, "expanded", {}).get("!errors", [])][:10],
                     },
                 },
                 "declined_clauses": self.declined,
